@@ -249,8 +249,13 @@ func registerFS(ex *Executor) {
 		if !p.IsConst() {
 			ex.abort("MkdirAll with symbolic path")
 		}
-		if _, ok := fs.Dirs[p.S]; !ok {
-			fs.Dirs[p.S] = args[1].(*smt.Term)
+		for d := p.S; d != "" && d != "/"; d = d[:strings.LastIndex(d, "/")] {
+			if _, ok := fs.Dirs[d]; !ok && d != "/logs" {
+				fs.Dirs[d] = args[1].(*smt.Term)
+			}
+			if !strings.Contains(d, "/") {
+				break
+			}
 		}
 		st.Ghost["fs"] = fs
 		return IfaceV{}, cNext
@@ -292,6 +297,10 @@ func registerFS(ex *Executor) {
 		ft := ex.lookupType("os", "File")
 		if i < 0 {
 			if flags&oCREATE == 0 {
+				return TupleV{Ptr{}, ex.mkErr(st, "ENOENT")}, cNext
+			}
+			if !fs.dirExists(n) {
+				// creating a file needs its directory: only the harness's base directory exists from the start
 				return TupleV{Ptr{}, ex.mkErr(st, "ENOENT")}, cNext
 			}
 			fs.NextIno++
@@ -678,4 +687,23 @@ func umasked(perm *smt.Term) *smt.Term {
 	}
 	bit := func(w int64) *smt.Term { return smt.Mod(smt.Div(perm, smt.IntC(w)), smt.IntC(2)) }
 	return smt.Sub(smt.Sub(perm, smt.Mul(smt.IntC(16), bit(16))), smt.Mul(smt.IntC(2), bit(2)))
+}
+
+// dirExists: the directory part of a file name is the harness's base directory ("/logs", "/dev", or no directory at all)
+// or was created by MkdirAll
+func (fs *FSState) dirExists(n FName) bool {
+	full := n.Lit
+	if n.Hole != nil {
+		full = n.Pre
+	}
+	i := strings.LastIndex(full, "/")
+	if i <= 0 {
+		return true
+	}
+	d := full[:i]
+	if d == "/logs" || d == "/dev" {
+		return true
+	}
+	_, ok := fs.Dirs[d]
+	return ok
 }
